@@ -34,6 +34,9 @@ def catalogue():
         ("two-scripts", b("1", "2"), [], "BASE", [], b("ADD", "3", "EQUAL"), 0),
         ("p2sh", G.push(redeem), [], "BASE", ["P2SH"], spk, 0),
         ("initial-stack", b("DUP", "TOALTSTACK", "1ADD", "FROMALTSTACK", "SWAP"), [b"\x05", b"\x07"], "BASE", [], b"", 0),
+        # 0-of-3 CHECKMULTISIG: the operation count grows by 1 + the number of keys in one step
+        ("multisig", b("0", "0") + G.push(KEY33) + G.push(KEY33[:1] + b"\x22" * 32) + G.push(KEY33[:1] + b"\x33" * 32) + b("3", "CHECKMULTISIG", "NOP", "1", "NOP"), [], "BASE", [], b"", 0),
+        ("multisig-v0", b("0", "0") + G.push(KEY33) + b("1", "CHECKMULTISIGVERIFY", "NOP", "1"), [], "WITNESS_V0", [], b"", 0),
     ]
 
 
